@@ -210,6 +210,9 @@ class Check:
                 if msg not in self.known_hits:
                     self.known_hits.append(msg)
                 return
+        if len(self.violations) >= 5:
+            self.cov['violations_not_listed'] = self.cov.get('violations_not_listed', 0) + 1
+            return
         d = os.path.join(VERIF, 'replays', self.pid)
         os.makedirs(d, exist_ok=True)
         body = json.dumps(f, sort_keys=True, indent=1)
@@ -291,7 +294,31 @@ def interp_stats(I):
     return {'functions': dict(I.fn_counts), 'lib': dict(I.lib_used)}
 
 
-def discharge(solver, items, assumptions=(), want_model=True):
+def eval_search_cex(pending, assumptions, n, seed=0):
+    names = {}
+    for _, c in pending:
+        for v in T.support(c):
+            names[v] = T.all_vars()[v].w
+    rnd = random.Random(seed + len(names))
+    tries = []
+    tries.append({k: 0 for k in names})
+    tries.append({k: (1 << w) - 1 for k, w in names.items()})
+    for _ in range(n):
+        tries.append({k: rnd.getrandbits(w) for k, w in names.items()})
+    for env in tries:
+        for k, below in T.VAR_RANGE.items():
+            if k in env:
+                env[k] %= below
+        cache = {}
+        if any(T.evaluate(a, env, cache) == 0 for a in assumptions):
+            continue
+        for label, cond in pending:
+            if T.evaluate(cond, env, cache) == 0:
+                return (label + ' [witness found by term evaluation]', env)
+    return None
+
+
+def discharge(solver, items, assumptions=(), want_model=True, eval_search=16):
     """items: list of (label, cond) where cond (width-1 int/term) must hold under the solver's
     permanent assumptions.  Syntactically true ones are counted, the rest are sent in one batch
     query (assert the disjunction of the negations); on sat each is queried separately.
@@ -308,19 +335,42 @@ def discharge(solver, items, assumptions=(), want_model=True):
             continue
         pending.append((label, cond))
     unknowns = []
+    if pending and eval_search:
+        # cheap counterexample search on the encoding itself (term evaluation under a few assignments);
+        # only ever used to *find* a witness faster - a pass here proves nothing and the solver still decides
+        cex = eval_search_cex(pending, assumptions, eval_search)
+        if cex is not None:
+            failures.append(cex)
+            return syn, len(pending), failures, unknowns
     if pending:
         neg = T.or_many([T.lnot(c) for _, c in pending])
-        ans, _ = solver.check(list(assumptions) + [neg])
+        ans, model = solver.check(list(assumptions) + [neg], want_model=want_model)
         if ans == 'unsat':
             pass
-        else:
-            # find the culprits individually
+        elif ans == 'sat':
+            # one model violates at least one obligation: find which by evaluating them under it
+            env = dict(model or {})
+            for name in T.all_vars():
+                env.setdefault(name, 0)
+            hit = False
             for label, cond in pending:
-                a, model = solver.check(list(assumptions) + [T.lnot(cond)], want_model=want_model)
-                if a == 'sat':
+                if T.evaluate(cond, env) == 0:
                     failures.append((label, model))
-                elif a == 'unknown':
-                    unknowns.append(label)
+                    hit = True
+                    if len(failures) >= 3:
+                        break
+            if not hit:
+                unknowns.append('model does not falsify any obligation (assumption-dependent?)')
+        else:
+            if len(pending) <= 3 and not solver.dead:
+                for label, cond in pending:
+                    a, model = solver.check(list(assumptions) + [T.lnot(cond)], want_model=want_model)
+                    if a == 'sat':
+                        failures.append((label, model))
+                    elif a == 'unknown':
+                        unknowns.append(label)
+            else:
+                unknowns.extend(label for label, _ in pending[:5])
     return syn, len(pending), failures, unknowns
 
 
